@@ -72,6 +72,7 @@ type shardResult struct {
 	viols   []proto.Violation
 	crashes []crash
 	harness []string
+	stopped string
 }
 
 // tail keeps the last n bytes written to it.
@@ -94,6 +95,7 @@ func (t *tail) String() string { t.mu.Lock(); defer t.mu.Unlock(); return string
 
 func runShard(lane laneSpec, job proto.Job, maxCrashes int) shardResult {
 	var res shardResult
+	slow := 0
 	for {
 		cmd := workerCmd(lane, &job)
 		stdout, _ := cmd.StdoutPipe()
@@ -163,7 +165,18 @@ func runShard(lane laneSpec, job proto.Job, maxCrashes int) shardResult {
 		if special != "" {
 			kind = special
 		}
+		if strings.Contains(errTail.String(), "reader operation budget exceeded twice") {
+			kind = "reader-no-progress-loop"
+		}
+		if kind == "hang" || kind == "memory" {
+			slow++
+		}
 		res.crashes = append(res.crashes, crash{Lane: lane.Name, Idx: lastB, Kind: kind, Stderr: errTail.String()})
+		if slow >= 3 {
+			// every hang costs the 20 s watchdog: three in one shard establish the violation, stop this shard
+			res.stopped = fmt.Sprintf("shard %d of lane %s stopped after %d hangs", job.Shard, lane.Name, slow)
+			return res
+		}
 		if len(res.crashes) >= maxCrashes {
 			res.harness = append(res.harness, fmt.Sprintf("shard %d of lane %s gave up after %d worker deaths", job.Shard, lane.Name, len(res.crashes)))
 			return res
@@ -245,6 +258,9 @@ func (s *server) call(rq *proto.Request) (rs proto.Response, died string, stderr
 			s.cmd.Wait()
 			if special == "" {
 				special = "process-crash"
+			}
+			if strings.Contains(s.err.String(), "reader operation budget exceeded twice") {
+				special = "reader-no-progress-loop"
 			}
 			return rs, special, s.err.String()
 		}
@@ -686,6 +702,9 @@ func doCheck(prop, tier string, seed uint64, nworkers, maxSec int, noMin bool) i
 				all.viols = append(all.viols, r.viols...)
 				all.crashes = append(all.crashes, r.crashes...)
 				all.harness = append(all.harness, r.harness...)
+				if r.stopped != "" {
+					fmt.Println("note:", r.stopped)
+				}
 				ls := laneStats[lane.Name]
 				if ls == nil {
 					ls = &proto.Stats{Probes: map[string]int{}, Faults: map[string]int{}, Policies: map[string]int{}}
